@@ -16,6 +16,35 @@ def _c08_nontrivial(lines):
     return False
 
 
+def c12_judge(op, impl, spec):
+    """spec is a pattern: `name=value` exact, `name=*` wildcard, `k>=m` lower bound"""
+    if impl == spec:
+        return True
+    iv = dict(t.split("=", 1) for t in impl.split() if "=" in t)
+    for tok in spec.split():
+        if ">=" in tok:
+            n, v = tok.split(">=")
+            if n not in iv or not iv[n].isdigit() or int(iv[n]) < int(v):
+                return False
+        elif "=" in tok:
+            n, v = tok.split("=", 1)
+            if v == "*":
+                if n not in iv:
+                    return False
+            elif iv.get(n) != v:
+                return False
+        else:
+            return False
+    return True
+
+
+def _c12_nontrivial(lines):
+    # a case with a multi-block (fragmented) record or several sessions, and damage/truncation ops
+    sess = [l for l in lines if l.startswith("session")]
+    big = any(int(t.split(":")[0]) > 32000 for l in sess for t in l.split()[1:])
+    return (big or len(sess) > 1) and any(l.split(" ")[0] in ("trunc", "flip", "setb", "recover") for l in lines)
+
+
 PROPS = {
     "C08": {
         "lean": ["Skv.Props.C08"],
@@ -34,5 +63,27 @@ PROPS = {
         ],
         "trusted_base": ["modelled, not verified: every Rust function body of src/transaction.rs (write, get_with_options, "
                          "set_savepoint, rollback_to_savepoint, rollback, commit's batch construction)"],
+    },
+    "C12": {
+        "lean": ["Skv.Props.C12"],
+        "audit": "Skv/Audit/C12.lean",
+        "streams": [
+            {"name": "framing", "harness": "c12", "driver": "c12", "quick_cases": 60, "thorough_cases": 600,
+             "nontrivial": _c12_nontrivial, "judge": c12_judge},
+        ],
+        "rule": "segments written by the real Wal in 1-3 sessions of 1-4 records (lengths aimed at the block arithmetic: "
+                "0..8 bytes left before a 32 KiB boundary, exactly one block, 1-1.5 blocks, small), then 120 (quick) / 400 "
+                "(thorough) reads of the file cut at / damaged at offsets concentrated on record ends, fragment headers "
+                "(type byte: every bit, 0x00, 0xff, 0x09) and block boundaries, and recovery flows (cut, read, repair on "
+                "corruption, reopen, append, read); file bytes compared by length+hash with the model's encoding; "
+                "non-trivial = multi-block record or several sessions, with damage ops; distinct = distinct op lists",
+        "assumptions": [
+            "CRC-32 detects the single-byte damage applied (evaluated on every damaged input: a miss shows up as impl != spec)",
+            "LZ4 is not exercised (compression None); the model keeps it as an opaque parameter",
+        ],
+        "trusted_base": ["modelled, not verified: Writer::add_record/emit_physical_record, Reader::next/read, "
+                         "Wal::create_writer (block_offset = len % BLOCK_SIZE), repair_corrupted_wal_segment",
+                         "proved for every block size 7 < B <= 65542 and every checksum function; truncation / damage "
+                         "prefix behaviour is validated by the sweep, not yet a theorem"],
     },
 }
